@@ -40,6 +40,7 @@ DoInsert(k) ==
   /\ peak' = Max(peak, Count(T'))
   /\ path' = path \o "i " \o I2S(k) \o " " \o I2S(Val(k)) \o ";"
   /\ Assert(Contents(T') = Contents(T) \cup {<<k, Val(k)>>}, <<"insert refinement", k>>)
+  /\ Assert(AbsPool(T') = AbsTake(AbsPool(T)), "insert is not one Take / GrowTake step of the abstract pool")
   \* C17: every stored slot keeps its entity
   /\ Assert(\A s \in Reach(T) : s \in Reach(T') /\ N(T', s).k = N(T, s).k /\ N(T', s).v = N(T, s).v,
             <<"insert moved an entity", k>>)
@@ -50,6 +51,7 @@ DoDelete(k) ==
   /\ peak' = peak
   /\ path' = path \o (IF k \in KeysOf(T) /\ k % 2 = 0 THEN "dh " ELSE "d ") \o I2S(k) \o ";"
   /\ Assert(Contents(T') = {kv \in Contents(T) : kv[1] # k}, <<"delete refinement", k>>)
+  /\ Assert(AbsPool(T') = (IF k \in KeysOf(T) THEN AbsGive(AbsPool(T)) ELSE AbsPool(T)), "delete is not one Give step of the abstract pool")
   /\ Assert(k \in KeysOf(T) => SearchFirstLess(T, T.root, k, E) = FindIndex(T, T.root, k), "handle of k is the slot delete finds")
 
 DoWrite(k) ==
@@ -66,6 +68,7 @@ DoClear ==
   /\ peak' = peak
   /\ path' = path \o "c;"
   /\ Assert(Contents(T') = {} /\ T'.root = E /\ Len(T'.free) = Len(T'.nd) - 1, "clear: entries left or slots not returned")
+  /\ Assert(AbsPool(T') = AbsGives(AbsPool(T), Count(T)), "clear is not Count Give steps of the abstract pool")
 
 Next == \/ \E k \in Keys : DoInsert(k) \/ DoDelete(k) \/ DoWrite(k)
         \/ DoClear
